@@ -303,8 +303,14 @@ def _run(check: Check, args, t0: float) -> int:
     # determinism sample: same case, two different worker processes
     det_pairs = [(i, digests[i], digests.get(-i - 1)) for i in digests if i >= 0 and (-i - 1) in digests]
     det_bad = [p for p in det_pairs if p[1] != p[2]]
-    if det_bad:
+    if det_bad and not viols:
         raise HarnessError(f"non-deterministic run: {len(det_bad)}/{len(det_pairs)} sampled cases differ between two processes, e.g. case {det_bad[0][0]}")
+    if det_bad:
+        # Process-global state in the code under test (a module-level cache, say) makes a case depend on what ran before it in
+        # the same worker. Violations are still only reported if they replay from their file in a fresh interpreter (below),
+        # which is what protects against false alarms; anything that does not replay ends as a harness error.
+        print(f"NOTE check={check.id}: {len(det_bad)}/{len(det_pairs)} sampled cases gave different event logs in two processes "
+              f"(state leaking between cases); only violations that replay in a fresh interpreter are reported")
     # reach self-test
     missing = [k for k in check.required_fired if not (fired.get(k) or probes.get(k))]
     if missing and not args.limit and not viols:
@@ -320,27 +326,38 @@ def _run(check: Check, args, t0: float) -> int:
     exit_code = 0
     known_matched = []
     new_viols = []
+    unreplayable: t.List[str] = []
     for sig, lst in by_sig.items():
         k = match_known(check.id, sig, known)
         if k is not None:
             known_matched.append(sig)
             print(f"KNOWN-FINDING: property={check.id} {sig} ({persig[sig]} cases) - {k.get('description', '')}")
             continue
-        i, v = lst[0]
-        case = cases[i]
-        small = _minimise(check, case, sig)
-        path = _write_replay(check, tier, seed, i, small, sig, v, original=case)
-        ok = _verify_replay(check, path)
-        if not ok:
-            print(f"HARNESS-ERROR check={check.id}: minimised replay {path} does not reproduce {sig} in a fresh interpreter; reporting the unminimised case")
+        path = None
+        for i, v in lst:  # up to 3 stored cases per signature: the first that replays in a fresh interpreter is reported
+            case = cases[i]
+            small = _minimise(check, case, sig)
+            path = _write_replay(check, tier, seed, i, small, sig, v, original=case)
+            if _verify_replay(check, path):
+                break
+            print(f"NOTE check={check.id}: minimised replay {path} does not reproduce {sig} in a fresh interpreter; trying the unminimised case {i}")
             path = _write_replay(check, tier, seed, i, case, sig, v, original=None, suffix="-orig")
-            if not _verify_replay(check, path):
-                raise HarnessError(f"violation {sig} does not replay in a fresh interpreter")
+            if _verify_replay(check, path):
+                break
+            path = None
+        if path is None:
+            if det_bad:
+                print(f"NOTE check={check.id}: {sig} ({persig[sig]} cases) only occurs with state left behind by earlier cases of the same process; not reported")
+                unreplayable.append(sig)
+                continue
+            raise HarnessError(f"violation {sig} does not replay in a fresh interpreter")
         print(f"VIOLATION property={check.id} replay={path}")
         print(f"  signature: {sig}  ({persig[sig]} cases)  detail: {v.get('detail', '')[:300]}")
         new_viols.append(sig)
         exit_code = 1
 
+    if unreplayable and not new_viols:
+        raise HarnessError(f"violations were seen ({unreplayable[:3]}) but none replays in a fresh interpreter: state leaks between cases")
     wall = time.time() - t0
     if not args.no_evidence:
         cov = {
